@@ -161,10 +161,15 @@ type Combo struct {
 
 func (c Combo) String() string { return c.Kind.String() + "/" + Seeds()[c.Seed].Name }
 
-func Combos() []Combo {
+// Combos: thorough uses every kind x seed; quick leaves out the seeds whose
+// interesting successors (a path, an area over it) are seeds of their own.
+func Combos(tier string) []Combo {
 	var out []Combo
 	for k := KBasic; k <= KOverlayBase; k++ {
 		for s := range Seeds() {
+			if tier != "thorough" && (s == 0 || (s == 2 && k != KOverlayBase)) {
+				continue
+			}
 			out = append(out, Combo{k, s})
 		}
 	}
